@@ -333,18 +333,20 @@ def _case(spec: dict, tags: list[str]) -> dict:
 
 # input features under which an aspect is known to fail on the pinned tree: such cases are counted under
 # their own clause name '<clause>@<tags>' so that they neither hide nor crowd out the others
-# (note-dup and linear-core-wrap are still computed as a description of the case but no longer name a
-# clause: C10-F4 and C10-F11 are fixed in /repo, their cases are judged under the bare clause names again)
+# (note-dup, linear-core-wrap, prepeptide-rev, side-proto and whole-vs-origin are still computed as a description
+# of the case but no longer name a clause: C10-F4, F11, F5, F9, F10 are fixed in /repo (ea1edb60, 64dd6737,
+# ecdb2578, f9c821bb, ab256cba); their cases are judged under the bare clause names again and their
+# predicates below cannot match any clause name)
 RELEVANT = {
-    "protoclusters": ["proto-tie", "whole-vs-origin", "side-proto"],
-    "candidates": ["proto-tie", "cand-tie", "whole-vs-origin"],
-    "subregions": ["sub-tie", "whole-vs-origin"],
-    "regions": ["proto-tie", "cand-tie", "sub-tie", "whole-vs-origin"],
-    "area-members": ["proto-tie", "cand-tie", "sub-tie", "whole-vs-origin", "cds-link-miss", "cds-query-miss"],
-    "fixed-point-content": ["proto-tie", "cand-tie", "sub-tie", "whole-vs-origin", "side-proto"],
-    "fixed-point-order": ["prepeptide-rev", "prepeptide-origin", "prepeptide-partial"],
+    "protoclusters": ["proto-tie"],
+    "candidates": ["proto-tie", "cand-tie"],
+    "subregions": ["sub-tie"],
+    "regions": ["proto-tie", "cand-tie", "sub-tie"],
+    "area-members": ["proto-tie", "cand-tie", "sub-tie", "cds-link-miss", "cds-query-miss"],
+    "fixed-point-content": ["proto-tie", "cand-tie", "sub-tie"],
+    "fixed-point-order": ["prepeptide-origin", "prepeptide-partial"],
     "CDS-gene-functions": ["gf-colon"],
-    "CDS_motif": ["prepeptide-rev", "prepeptide-origin", "prepeptide-partial"],
+    "CDS_motif": ["prepeptide-origin", "prepeptide-partial"],
 }
 
 
